@@ -508,7 +508,13 @@ def _r17f(cx, get_conn):
         guard = any(isinstance(e, ast.Compare) and isinstance(e.ops[0], ast.In) and not pol and norm(e.left) == norm(stores[0].slice) for e, pol in facts(stores[0]))
         cx.ob("R17f", stores[0], guard, "a connection is created only when the prefix is not cached yet" if guard else "derived connection is re-created / overwritten although cached", stmt=norm(enclosing_stmt(stores[0])) + " [guard]")
     rets = [r for r in walk_local(get_conn) if isinstance(r, ast.Return)]
-    cx.ob("R17f", rets[0] if rets else get_conn, len(rets) == 1 and is_name(rets[0].value), "returns the chosen connection" if len(rets) == 1 else "several returns")
+    cache = norm(stores[0].value) if stores else None
+
+    def conn_value(v):      # a connection: a local name, or the cached entry for this prefix
+        return isinstance(v, ast.Name) or (isinstance(v, ast.Subscript) and stores and norm(v.value) == cache and norm(v.slice) == norm(stores[0].slice))
+    ok = bool(rets) and all(r.value is not None and conn_value(r.value) for r in rets)
+    cx.ob("R17f", rets[0] if rets else get_conn, ok, "every exit returns a connection (the base one, the cached one or the new one)" if ok else
+          "an exit of get_conn does not return the chosen connection", stmt="returns a connection")
 
 
 # ------------------------------------------------------------------------------------------------ R17g
